@@ -79,3 +79,23 @@ add("C04", "exploration", "vh",
     "exhaustive differential exploration (ENABLE_GC on vs off) over program spaces, budgets and allocator heap limits",
     "Every program of the GC space (all 34 GC-candidate operators x inner expressions that produce each restore class), the recursive families, the guard space and P1/P2, under several base flag sets, is run with and without ENABLE_GC for budget 0, C, C-1 and interior thresholds, and under every heap limit within 70 bytes of the program's need; result, cost, error string and atom/pair/heap counts must be identical. The check fails as machinery if no restore happened.",
     "Differential on the real interpreter; the allocator's own accounting is C12's subject.")
+
+add("C07", "exploration", "vh",
+    "exhaustive differential exploration over the flag lattice: every program x base flag set x all 63 subsets of the six restriction flags",
+    "For every program of five spaces (repository vectors for every operator, all opcodes over constants incl. non-canonical integers, arithmetic/BLS operands around 256/1024/2048 bytes, softfork guards, recursive families) and each base flag set, every non-empty subset R of {NO_UNKNOWN_OPS, CANONICAL_INTS, DISABLE_OP, LIMIT_SOFTFORK, LIMITS, LIMIT_HEAP} is added: a success under F|R must be the same success under F; RELAXED_BLS must preserve every success; a mempool-mode success must be a consensus success at a budget equal to its cost.",
+    "LIMIT_HEAP is given the wheel's meaning (allocator limited to 500,000,000 bytes). One known finding: a guard with a non-canonical extension argument under CANONICAL_INTS without NO_UNKNOWN_OPS.")
+
+add("C08", "exploration", "vh",
+    "exhaustive differential exploration with an extension-hiding wrapper Dialect",
+    "Every guard program of P5 (keccak, BLS, 4-byte secp, failing and nested inner programs x extensions x declared costs x contexts), the 4-byte secp opcodes / opcodes 62-65 with vector and junk arguments and the vector programs run on ChiaDialect and on a wrapper dialect that reports every extension as unknown and sends the secp opcodes to op_unknown, under non-strict flag sets without NEW_COST_MODEL and budgets 0, C, C-1: aware success implies unaware success with the same result, cost and atom/pair/heap counts.",
+    "The wrapper dialect (progspace.rs::HideExt) is the model of an extension-unaware node.")
+
+add("C11", "exploration", "vh",
+    "exhaustive differential exploration F vs F|NEW_COST_MODEL",
+    "Every program of seven spaces (vectors, all opcodes, big operands reaching the split-accumulator code of + - and the logic operators, compositions, families, guards, limit-size operands) under several base flag sets is run under both cost models (budget ceiling 2^34 and the smaller of the two costs); whenever both succeed the result trees must be identical.",
+    "Differential on the real interpreter; the number of distinct operators for which both models succeed is reported to show non-vacuity.")
+
+add("C31", "exploration", "vh",
+    "exhaustive differential exploration of guard programs against the hidden-guard run under both cost models; nesting-depth boundary",
+    "Every P5 guard program under both cost models is run on ChiaDialect and on the extension-hiding dialect: equal result means the guard yielded nil, equal final atom/pair/heap counts mean the guard left the counts as at its entry, equal cost means it consumed exactly its declared cost (not required for grandfathered extensions under NEW_COST_MODEL); guards nested 1,2,3,19,20,21,22 deep with and without LIMIT_SOFTFORK.",
+    "Counts at guard entry are observed through the hidden-guard run (whose guard allocates nothing), not by sampling inside the run.")
